@@ -1228,4 +1228,200 @@ theorem C04_word_is_ID_at_mysql (d : Nat) (hd : d ∈ stops) (pre w rest : List 
         = some (idr, ⟨w.reverse ++ pre, d :: rest⟩) :=
   C04_word_is_ID_at _ classOK_mysql d ((List.all_eq_true.mp stopOK_live.2.1) d hd) pre w rest hw hk
 
+/-! ### numbers with a point: `digits . digits` is ONE `FLOAT` token -/
+
+inductive FltTail where
+  | plus | star
+  deriving DecidableEq, Repr
+
+/-- `D+ \. D+` (mindsdb) or `D+ \. D*` (sqlite, mysql) -/
+def fltShape : Re → Option (CSet × CSet × FltTail)
+  | .seq (.seq (.set a) (.star true (.set a'))) (.seq (.set p) (.seq (.set b) (.star true (.set b')))) =>
+    if a == a' && a == b && a == b' then some (a, p, .plus) else none
+  | .seq (.seq (.set a) (.star true (.set a'))) (.seq (.set p) (.star true (.set b))) =>
+    if a == a' && a == b then some (a, p, .star) else none
+  | _ => none
+
+def fltTailRe (D : CSet) : FltTail → Re
+  | .plus => .seq (.set D) (.star true (.set D))
+  | .star => .star true (.set D)
+
+theorem fltShape_spec {r : Re} {D P : CSet} {k : FltTail} (h : fltShape r = some (D, P, k)) :
+    r = .seq (.seq (.set D) (.star true (.set D))) (.seq (.set P) (fltTailRe D k)) := by
+  unfold fltShape at h
+  split at h
+  · rename_i a a' p b b'
+    by_cases hc : (a == a' && a == b && a == b') = true
+    · simp only [hc, if_true, Option.some.injEq, Prod.mk.injEq] at h
+      simp only [Bool.and_eq_true, beq_iff_eq] at hc
+      obtain ⟨⟨c1, c2⟩, c3⟩ := hc
+      obtain ⟨h1, h2, h3⟩ := h
+      subst h1; subst h2; subst h3; subst c1; subst c2; subst c3
+      rfl
+    · simp [hc] at h
+  · rename_i a a' p b
+    by_cases hc : (a == a' && a == b) = true
+    · simp only [hc, if_true, Option.some.injEq, Prod.mk.injEq] at h
+      simp only [Bool.and_eq_true, beq_iff_eq] at hc
+      obtain ⟨c1, c2⟩ := hc
+      obtain ⟨h1, h2, h3⟩ := h
+      subst h1; subst h2; subst h3; subst c1; subst c2
+      rfl
+    · simp [hc] at h
+  · cases h
+
+def ruleOKflt (r : Re) : Bool :=
+  (nonNull r && disjointR (first r) digitSet) ||
+  (match r with
+   | .alt _ b => (match idShape r with | some (_, bset) => noneMemR bset digitSet && !bset.mem 46 | none => false) &&
+                 nonNull b && disjointR (first b) digitSet
+   | _ => false)
+
+def classOKflt (c : Cfg) : Bool :=
+  match splitAt "FLOAT" c.rules with
+  | none => false
+  | some (pre, fr, _) =>
+    pre.all (fun r => ruleOKflt r.re) && !fr.ignored &&
+    (match fltShape fr.re with | some (d, p, _) => allMemR d digitSet && !d.mem 46 && p.mem 46 | none => false) &&
+    disjointR c.ignore digitSet
+
+def fltTailKind (c : Cfg) : Option FltTail :=
+  match splitAt "FLOAT" c.rules with
+  | none => none
+  | some (_, fr, _) => (fltShape fr.re).map fun x => x.2.2
+
+/-- **`digits . digits` is one `FLOAT` token** (the fraction may be empty where the rule is `D+ \. D*`) — every rule list with
+`classOKflt`, every pair of digit strings -/
+theorem C04_float_lexes (c : Cfg) (hc : classOKflt c = true) (a b : List Nat) (hna : a ≠ [])
+    (hnb : fltTailKind c = some .plus → b ≠ [])
+    (ha : ∀ x ∈ a, inSet digitSet x) (hb : ∀ x ∈ b, inSet digitSet x) :
+    lex c (a ++ 46 :: b) = .ok [.tok "FLOAT" false (a ++ 46 :: b)] := by
+  unfold classOKflt at hc
+  unfold fltTailKind at hnb
+  cases hs : splitAt "FLOAT" c.rules with
+  | none => rw [hs] at hc; cases hc
+  | some x =>
+    obtain ⟨pre, fr, post⟩ := x
+    rw [hs] at hc hnb
+    dsimp only at hnb
+    simp only [Bool.and_eq_true, List.all_eq_true, Bool.not_eq_true'] at hc
+    obtain ⟨⟨⟨hpre, hign⟩, hfl⟩, hignore⟩ := hc
+    obtain ⟨erules, ename⟩ := splitAt_spec hs
+    cases a with
+    | nil => exact absurd rfl hna
+    | cons a0 ta =>
+      have ha0 : inSet digitSet a0 := ha a0 List.mem_cons_self
+      have hnoB : ∀ {B : CSet}, noneMemR B digitSet = true → B.mem 46 = false →
+          ∀ x ∈ (a0 :: ta) ++ 46 :: b, B.mem x = false := by
+        intro B h1 h2 x hx
+        rcases List.mem_append.mp hx with h | h
+        · exact noneMemR_sound h1 (ha x h)
+        · rcases List.mem_cons.mp h with h0 | h0
+          · subst h0; exact h2
+          · exact noneMemR_sound h1 (hb x h0)
+      have hnone : ∀ r ∈ pre, matchAt c.word r.re ⟨[], (a0 :: ta) ++ 46 :: b⟩ = none := by
+        intro r hr
+        have hok := hpre r hr
+        unfold ruleOKflt at hok
+        simp only [Bool.or_eq_true] at hok
+        rcases hok with hf | hid
+        · simp only [Bool.and_eq_true] at hf
+          exact matchAt_none_of_first hf.1 hf.2 (p := ⟨[], (a0 :: ta) ++ 46 :: b⟩) rfl ha0
+        · cases hre : r.re with
+          | alt x y =>
+            rw [hre] at hid
+            simp only [Bool.and_eq_true] at hid
+            obtain ⟨⟨hsh, hnb'⟩, hfb⟩ := hid
+            cases hsp : idShape (Re.alt x y) with
+            | none => rw [hsp] at hsh; cases hsh
+            | some ab =>
+              obtain ⟨A, B⟩ := ab
+              rw [hsp] at hsh
+              simp only [Bool.and_eq_true, Bool.not_eq_true'] at hsh
+              have ea := idShape_alt hsp rfl
+              unfold matchAt
+              rw [m_alt]
+              have h1 : m c.word x ⟨[], (a0 :: ta) ++ 46 :: b⟩ some = none := by
+                rw [ea]
+                exact idCore_none c.word A B ⟨[], (a0 :: ta) ++ 46 :: b⟩ (hnoB hsh.1 hsh.2)
+              have h2 : m c.word y ⟨[], (a0 :: ta) ++ 46 :: b⟩ some = none :=
+                matchAt_none_of_first hnb' hfb (p := ⟨[], (a0 :: ta) ++ 46 :: b⟩) rfl ha0
+              rw [h1, h2]; rfl
+          | _ => rw [hre] at hid; simp at hid
+      cases hsh : fltShape fr.re with
+      | none => rw [hsh] at hfl; cases hfl
+      | some t3 =>
+        obtain ⟨D, P, k⟩ := t3
+        rw [hsh] at hfl hnb
+        simp only [Bool.and_eq_true, Bool.not_eq_true', Option.map_some, Option.some.injEq] at hfl hnb
+        obtain ⟨⟨hD, hD46⟩, hP⟩ := hfl
+        have ere := fltShape_spec hsh
+        have hDa : ∀ x ∈ a0 :: ta, D.mem x = true := fun x hx => allMemR_sound hD (ha x hx)
+        have hDb : ∀ x ∈ b, D.mem x = true := fun x hx => allMemR_sound hD (hb x hx)
+        -- the tail behind the point runs to the end
+        have htail : m c.word (fltTailRe D k) ⟨46 :: (ta.reverse ++ [a0]), b⟩ some
+            = some ⟨b.reverse ++ 46 :: (ta.reverse ++ [a0]), []⟩ := by
+          cases k with
+          | plus =>
+            cases b with
+            | nil => exact absurd rfl (hnb rfl)
+            | cons b0 tb =>
+              have := plus_set_all c.word D (46 :: (ta.reverse ++ [a0])) b0 tb hDb
+              unfold matchAt at this
+              simpa [Pos.fin, fltTailRe] using this
+          | star =>
+            have := starA_some c.word D ⟨46 :: (ta.reverse ++ [a0]), b⟩ hDb
+            simpa [Pos.fin, fltTailRe] using this
+        have hfm0 : matchAt c.word fr.re ⟨[], (a0 :: ta) ++ 46 :: b⟩
+            = some ⟨b.reverse ++ 46 :: (ta.reverse ++ [a0]), []⟩ := by
+          rw [ere]
+          unfold matchAt
+          rw [m_seq, m_seq]
+          simp only [List.cons_append]
+          rw [m_set_cons, if_pos (hDa a0 List.mem_cons_self), m_star]
+          have := star_set_stop (isSetStep_m c.word D) 46 hD46 b ta [a0] ((ta ++ 46 :: b).length + 1)
+            (fun q => m c.word (.seq (.set P) (fltTailRe D k)) q some)
+            ⟨b.reverse ++ 46 :: (ta.reverse ++ [a0]), []⟩
+            (fun x hx => hDa x (List.mem_cons_of_mem _ hx)) (by simp; omega)
+            (by rw [m_seq, m_set_cons, if_pos hP]; exact htail)
+          exact this
+        have hfm : firstMatch c.word c.rules ⟨[], (a0 :: ta) ++ 46 :: b⟩
+            = some (fr, ⟨b.reverse ++ 46 :: (ta.reverse ++ [a0]), []⟩) := by
+          rw [erules, firstMatch_skip pre _ hnone]
+          unfold firstMatch
+          rw [hfm0]
+        have hig : c.ignore.mem a0 = false := by
+          cases h : c.ignore.mem a0 with
+          | false => rfl
+          | true => exact (disjointR_sound hignore (mem_sound h) ha0).elim
+        unfold lex
+        simp only [List.cons_append, List.length_cons, lexLoop, hig, Bool.false_eq_true, if_false] at hfm ⊢
+        simp only [hfm, List.length_nil, Nat.zero_lt_succ, if_true]
+        cases hn : (ta ++ 46 :: b).length + 1 with
+        | zero => omega
+        | succ n =>
+          have ht : List.take (ta.length + (b.length + 1)) (ta ++ 46 :: b) = ta ++ 46 :: b := by
+            apply List.take_of_length_le; simp
+          simp [lexLoop, ename, hign, between, ht]
+
+theorem classOKflt_live : classOKflt LexRe_sqlite.cfg = true ∧ classOKflt LexRe_mysql.cfg = true ∧
+    classOKflt LexRe_mindsdb.cfg = true ∧
+    fltTailKind LexRe_sqlite.cfg = some .star ∧ fltTailKind LexRe_mysql.cfg = some .star ∧
+    fltTailKind LexRe_mindsdb.cfg = some .plus := by decide +kernel
+
+/-- MindsDB: `D+ . D+` -/
+theorem C04_float_lexes_mindsdb (a b : List Nat) (hna : a ≠ []) (hnb : b ≠ [])
+    (ha : ∀ x ∈ a, inSet digitSet x) (hb : ∀ x ∈ b, inSet digitSet x) :
+    lex LexRe_mindsdb.cfg (a ++ 46 :: b) = .ok [.tok "FLOAT" false (a ++ 46 :: b)] :=
+  C04_float_lexes _ classOKflt_live.2.2.1 a b hna (fun _ => hnb) ha hb
+/-- sqlite / mysql: `D+ . D*` (also `12.`) -/
+theorem C04_float_lexes_sqlite (a b : List Nat) (hna : a ≠ [])
+    (ha : ∀ x ∈ a, inSet digitSet x) (hb : ∀ x ∈ b, inSet digitSet x) :
+    lex LexRe_sqlite.cfg (a ++ 46 :: b) = .ok [.tok "FLOAT" false (a ++ 46 :: b)] :=
+  C04_float_lexes _ classOKflt_live.1 a b hna (fun h => by rw [classOKflt_live.2.2.2.1] at h; cases h) ha hb
+theorem C04_float_lexes_mysql (a b : List Nat) (hna : a ≠ [])
+    (ha : ∀ x ∈ a, inSet digitSet x) (hb : ∀ x ∈ b, inSet digitSet x) :
+    lex LexRe_mysql.cfg (a ++ 46 :: b) = .ok [.tok "FLOAT" false (a ++ 46 :: b)] :=
+  C04_float_lexes _ classOKflt_live.2.1 a b hna (fun h => by rw [classOKflt_live.2.2.2.2.1] at h; cases h) ha hb
+
 end MindsVerif.Props.C04Lex
